@@ -525,12 +525,20 @@ func createShimChannel(ctx context.Context, host, shimPath string, rewriteHost b
 // targetURL of the request is restored. It must call the wrapped http.Handler with which it is created after it
 // is finished processing the request.
 func Proxy(ctx context.Context, wrapped http.Handler, host, shimPath string, rewriteHost, enableWebsocketInjection bool, openWebsocketWrapper func(wrapped http.Handler, metricHandler *metrics.MetricHandler) http.Handler, metricHandler *metrics.MetricHandler) (http.Handler, error) {
-	mux := http.NewServeMux()
-	if shimPath != "" {
-		shimPath = path.Clean("/"+shimPath) + "/"
-		shimServer := createShimChannel(ctx, host, shimPath, rewriteHost, openWebsocketWrapper, enableWebsocketInjection, metricHandler)
-		mux.Handle(shimPath, shimServer)
+	if shimPath == "" {
+		return wrapped, nil
 	}
-	mux.Handle("/", wrapped)
-	return mux, nil
+	shimPath = path.Clean("/"+shimPath) + "/"
+	shimServer := createShimChannel(ctx, host, shimPath, rewriteHost, openWebsocketWrapper, enableWebsocketInjection, metricHandler)
+	// Requests under the shim path go to the shim, and everything else goes to the backend.
+	//
+	// This is deliberately not an `http.ServeMux`, as that answers requests for non-canonical
+	// paths (e.g. "/a//b") with a redirect instead of passing them on to the backend.
+	return http.HandlerFunc(func(w http.ResponseWriter, r *http.Request) {
+		if strings.HasPrefix(r.URL.Path, shimPath) {
+			shimServer.ServeHTTP(w, r)
+			return
+		}
+		wrapped.ServeHTTP(w, r)
+	}), nil
 }
